@@ -242,6 +242,28 @@ pub fn run(ctx: &mut Ctx, replay: Option<&[String]>) {
             }
         }
     }
+    // a path of 33 000+ nodes (col 0 - row 0 - col 1 - row 1 - ...): BFS distances up to 2^15 and 2^16 and beyond (a distance must not be
+    // kept in 15 or 16 bits); known by construction: column k is at distance 2k, row k at distance 2k + 1 from column 0; no cycle anywhere
+    for v in 0..ctx.scale(1, 4) {
+        let n = if v % 2 == 0 { 16_500 + rng.below(500) } else { 33_000 + rng.below(500) };
+        let mut h = SparseMatrix::new(n - 1, n);
+        for k in 0..n - 1 { h.insert(k, k); h.insert(k, k + 1); }
+        let h2 = h.clone();
+        match guarded(move || (h2.bfs(Node::Col(0)), h2.girth_at_node(Node::Col(0)))) {
+            Ok((b, lg)) => {
+                let mut ks: Vec<usize> = vec![0, 1, 127, 128, 16383, 16384, 16385, 32767, 32768, 32769, n - 2, n - 1];
+                for _ in 0..12 { ks.push(rng.below(n)); }
+                for k in ks.into_iter().filter(|&k| k < n) {
+                    ctx.emit(&format!("c11 known {} bfs-distance-on-a-path-of-{}-columns-from-c0-to-c{}", 2 * k, n, k), &opt_nat(b.col_nodes_distance[k]), true, &["path-longer-than-2^15"]);
+                    if k < n - 1 {
+                        ctx.emit(&format!("c11 known {} bfs-distance-on-a-path-of-{}-columns-from-c0-to-r{}", 2 * k + 1, n, k), &opt_nat(b.row_nodes_distance[k]), true, &["path-longer-than-2^15"]);
+                    }
+                }
+                ctx.emit(&format!("c11 known none local-girth-on-a-path-of-{}-columns", n), &opt_nat(lg), true, &["path-longer-than-2^15"]);
+            }
+            Err(_) => ctx.emit(&format!("c11 known no-panic bfs-on-a-path-of-{}-columns", n), "panic", true, &["path-longer-than-2^15"]),
+        }
+    }
     // wide graphs (hundreds of columns) whose cycles sit far from column 0, behind long acyclic stretches of columns: the global girth must
     // not depend on how the scan over the columns is split up or reduced
     for v in 0..ctx.scale(3, 12) {
